@@ -141,6 +141,10 @@ def check(cfg, lines):
             if what in ("cputg", "cgetg"):
                 # a granted request withdrawn in this instant: remembered until the node's next movement
                 withdrawn.append((t, ed, what))
+            elif what == "ilist":
+                n_recv = sum(1 for e2 in ev if e2[0] == "R" and e2[2] == ed)
+                if nq > n_recv:
+                    v("C18", "sink %d keeps a conveyor record for %d items, it received %d" % (ed, nq, n_recv))
             elif what == "pal":
                 on = sum(1 for i_, pl in place.items() if pl == ("pal", nq))
                 if on != nfree:
